@@ -58,6 +58,8 @@ def gen_case(rng):
         k = rng.randint(1, 2)
         full = [list(o) for o in itertools.product(*d['alph'])]
         c.update(d=d, map=[[o, [rng.randrange(3) for _ in range(k)]] for o in full], index=rng.choice([-1, -1] + list(range(d['n'] + 1))))
+        # the new variables given as a list of callables (one per appended variable) instead of one callable returning them all
+        c['as_list'] = rng.random() < 0.5
     elif kind == 'product':
         d = gen_joint(rng, 2, 3)
         vs = list(range(d['n']))
@@ -191,7 +193,11 @@ def observe(case):
         args = [d]
         kl = case['d']['klass']
         m = {pyo(kl, a): pyo(kl, b) for a, b in case['map']}
-        r = dit.insert_rvf(d, lambda o: m[o], index=case['index'])
+        if case.get('as_list'):
+            nk = len(case['map'][0][1])
+            r = dit.insert_rvf(d, [(lambda o, j=j: m[o][j:j + 1]) for j in range(nk)], index=case['index'])
+        else:
+            r = dit.insert_rvf(d, lambda o: m[o], index=case['index'])
     elif k == 'product':
         d = mk_joint(case['d'])
         args = [d]
